@@ -40,6 +40,11 @@ def trigger_documents(tier):
         out.append(f'{pre}<div id="region_list">\n{{|\n|-\n| a || b\n|}}\n</div>')
         out.append(f'{pre}<div style="overflow:auto;height:200px">\n{{|\n|-\n| a || b\n|}}\n</div>')
         out.append(f"{pre}== S ==\n\n== T ==\npara\n\n<references/>")
+    # a table inside an image caption, directly and below one more wrapper (remove_broken_children)
+    for wrap in ("{}", "<center>{}</center>", "<div>{}</div>", "<center><div>{}</div></center>"):
+        inner = wrap.format("\n{|\n|-\n| a || b\n|-\n| c || d\n|}\n")
+        out.append(f"[[File:x.png|thumb|{inner}]]\n\ntext")
+        out.append(f"[[File:x.png|thumb|caption {inner} more]]\n\ntext")
     for n in (2, 3, 4):
         for t in itertools.product(BLANKS, repeat=n):
             out.append("x" + "".join(t) + "y")
